@@ -536,6 +536,10 @@ def inexact_gradient_step(x0, f, gamma, epsilon, notion='absolute'):
 
 
 def exact_linesearch_step(x0, f, directions):
+    if any(ff.member.multivalued for w, ff in f._terms()):
+        # an exact line search on a non-smooth function needs the subgradient that certifies optimality on the span;
+        # a quasi-Newton search does not deliver it: not a real execution, try another member
+        raise Unsupported("exact line search on a non-smooth member")
     D = np.array([d.v for d in directions]).T if directions else np.zeros((len(x0.v), 0))
     if D.shape[1] == 0:
         xv = x0.v
